@@ -1109,7 +1109,10 @@ bool Builder::ExtractDeps(BuildResult::CommandCompleted& result,
       }
     }
   } else {
-    Fatal("unknown deps type '%s'", deps_type.c_str());
+    // Not Fatal(): other commands may be running and jobserver tokens may be
+    // held, which only the regular failure path waits for and returns.
+    *err = "unknown deps type '" + deps_type + "'";
+    return false;
   }
 
   return true;
